@@ -234,6 +234,20 @@ CLAIMS = {
         "technique": "TLA+ hill-climbing step machine model-checked by TLC; behaviours replayed and recorded runs validated by TLC",
         "design_ref": "6/C11",
     },
+    "C16": {
+        "text": ("spec/Gen_C16.tla: an engine is an object bound to a model and a history is a sequence of questions to ONE engine; the answer of every "
+                 "question (posterior table, MAP set, truncated factorisation) is specified as a function of (model content, question) only and no "
+                 "action changes the model (lemma HistoryIndependent on every enumerated history). TLC enumerates every history of 3 questions over a "
+                 "7-question palette (hard and virtual evidence incl. the same soft-evidence variable with two likelihoods, MAP, do-queries); each is "
+                 "replayed on shared VariableElimination / BeliefPropagation / CausalInference engines under concretisations {str, int, tuple variable "
+                 "names} x state-name kinds x insertion orders x hash seeds x {numpy, torch}: every answer must be the expected one (= a fresh "
+                 "engine's), and after every call the model (nodes, edges, latents, CPD values, state names), the evidence dictionary and the "
+                 "virtual-evidence CPDs passed in must be unchanged. Frame checks of other calls live in their own checks (C04 operands, C08 graphs, "
+                 "C11 start_dag and data, C13 do(), C15 copies)."),
+        "note": "Histories of length 3 on 6-11 instances; CausalInference only with string names (its query uses keyword lookups); torch compared at 1e-6.",
+        "technique": "TLA+ history machine with history-independent answers; TLC-enumerated histories replayed on shared engines with frame checks",
+        "design_ref": "6/C16",
+    },
 }
 
 NOT_APPLICABLE = {}
